@@ -161,7 +161,7 @@ func Run(tier, replay string) {
 	viol := trcheck.AsImplementedViolations(rep, "all")
 	rep.Extra["model_as_implemented_violates"] = viol
 	rep.Exhaustive = true
-	rep.Assumptions = []string{"fault sites are those of the 12 reference patterns of TranslateSrc.tla (14 reference-site kinds, 5 duplicate kinds); constructs outside the patterns are not faulted",
+	rep.Assumptions = []string{"fault sites are those of the 40 reference patterns of TranslateSrc.tla (reference-site kinds, duplicate kinds and fault classes as listed in notes/C04-C05-C12-C20.md); constructs outside the patterns are not faulted",
 		"LLVM 14 (llvm-as) arbitrates whether a faulted text is a fault"}
 	rep.Finish()
 }
